@@ -88,7 +88,9 @@ class Runner:
         self.env = Environment() if env is None else env
         self.lines = []
         self.notes = []          # oracle-only records (never compared with the model)
+        self.raised = None
         self._granted, self._reqs = set(), {}      # note_fcfs: requests seen granted; requests per (resource, kind) in creation order
+        self._users, self._granted_at, self._owner, self._reqinfo = {}, {}, {}, {}      # note_users (oracle-only)
         self.slots = {}
         self.labels = {}
         self.keep = []
@@ -219,6 +221,31 @@ class Runner:
                                            [self.lab(e) for e in queue]))
                         break
 
+    def note_users(self, ctx):
+        """oracle-only (C06 "the evicted process receives Interrupt(Preempted(by, usage_since, resource)) and the slot goes to the
+        preemptor"): called around every request / release / cancel / with-exit call and after every kernel step; compares the
+        public `users` of every resource with what it was at the last look.  A request that entered is granted at this instant.
+        A request that left a PreemptiveResource without its owner having released it in this very call was evicted; the
+        requests that entered in the same look, are preempting and rank strictly better took the slots."""
+        for ri, ((k, _, _), r) in enumerate(zip(self.case.res, self.res)):
+            if k not in ('resource', 'priority', 'preemptive'):
+                continue
+            cur = [self.lab(e) for e in r.users]
+            prev = self._users.get(ri, [])
+            if cur == prev:
+                continue
+            self._users[ri] = cur
+            added = [x for x in cur if x not in prev]
+            removed = [x for x in prev if x not in cur and not (ctx[0] in ('release', 'exit') and x == ctx[1])]
+            for a in added:
+                self._granted_at.setdefault(a, self.env.now)
+            if k == 'preemptive':
+                for v in removed:
+                    info = self._reqinfo.get(v)
+                    takers = [a for a in added if a in self._reqinfo and info is not None and self._reqinfo[a][2] and self._reqinfo[a][3] < info[3]]
+                    self.notes.append(('evicted', ri, self.env.now, v, self._owner.get(v), [(a, self._owner.get(a)) for a in takers],
+                                       ctx, self._granted_at.get(v), prev, added))
+
     def track_req(self, ri, kind, ev):
         self._reqs.setdefault((ri, kind), []).append(ev)
         self.note_fcfs()
@@ -299,15 +326,29 @@ class Runner:
                         # all_of([a, b]), `a | b` is any_of([a, b])); chains like `(a & b) & c` arise when a slot holds a condition
                         cond = (evs[0] & evs[1]) if op == 'allof' else (evs[0] | evs[1])
                     else:
-                        cond = (AllOf if op == 'allof' else AnyOf)(env, evs)
+                        # the operands may be handed over as any iterable (Condition takes an Iterable): which spelling is used
+                        # is fixed by the instruction (target slot and arity), the meaning is the same - also for NO operands
+                        form = (ins[1] + 2 * len(evs)) % 5
+                        opnds = [evs, (e for e in evs), iter(evs), tuple(evs), filter(lambda e: True, evs)][form]
+                        self.hook('cond-form', ('list', 'generator', 'iterator', 'tuple', 'filter')[form], len(evs))
+                        self.notes.append(('cond-form', ('list', 'generator', 'iterator', 'tuple', 'filter')[form], len(evs)))
+                        cond = (AllOf if op == 'allof' else AnyOf)(env, opnds)
                     slots[ins[1]] = self.new(cond)
                     evs.clear()          # the caller's list is the caller's: a condition must not alias it
                     self.hook('cond', slots[ins[1]], op, mine)
                 elif op == 'request':
                     r = self.res[ins[2]]
                     ub, qb = list(r.users), list(r.queue)
-                    if self.case.res[ins[2]][0] == 'resource': slots[ins[1]] = self.new(r.request())
-                    else: slots[ins[1]] = self.new(r.request(priority=ins[3], preempt=bool(ins[4])))
+                    self.note_users(('sync',))
+                    try:
+                        if self.case.res[ins[2]][0] == 'resource': slots[ins[1]] = self.new(r.request())
+                        else: slots[ins[1]] = self.new(r.request(priority=ins[3], preempt=bool(ins[4])))
+                    except BaseException:
+                        self.note_users(('sync',))
+                        raise
+                    self._owner[self.nlabel] = (me[0], name)
+                    self._reqinfo[self.nlabel] = (ins[3], env.now, bool(ins[4]), (ins[3], env.now, not bool(ins[4])))
+                    self.note_users(('request', self.nlabel))
                     if self.case.res[ins[2]][0] == 'preemptive':
                         # oracle-only: who should have been evicted by this call, restating the rule on the public attributes as
                         # they were before it: waiting requests are considered in rank order; each may evict the worst-ranked
@@ -325,16 +366,27 @@ class Runner:
                     self.notes.append(('req', self.nlabel, ins[2], ins[3], env.now, bool(ins[4])))
                 elif op == 'release':
                     if ins[3] in slots:
+                        self.note_users(('sync',))
                         slots[ins[1]] = self.new(self.res[ins[2]].release(slots[ins[3]]))
+                        self.note_users(('release', self.lab(slots[ins[3]])))
                         if slots[ins[3]] in self.res[ins[2]].users:
                             self.notes.append(('leaked', self.lab(slots[ins[3]]), ins[2], env.now))
                 elif op == 'cancel':
                     ev = slots.get(ins[1])
-                    if ev is not None and hasattr(ev, 'cancel'): ev.cancel()
+                    if ev is not None and hasattr(ev, 'cancel'):
+                        self.note_users(('sync',))
+                        try:
+                            ev.cancel()
+                        finally:
+                            self.note_users(('cancel', self.lab(ev)))
                 elif op == 'exit':
                     ev = slots.get(ins[1])
                     if ev is not None:
-                        ev.__exit__(None, None, None)   # may raise (double cancel) before it releases
+                        self.note_users(('sync',))
+                        try:
+                            ev.__exit__(None, None, None)   # may raise (double cancel) before it releases
+                        finally:
+                            self.note_users(('exit', self.lab(ev)))
                         self.nlabel += 1                # the Release it created is a program-level event of the model too
                         if ev in self.res[ins[2]].users or ev in self.res[ins[2]].queue:
                             self.notes.append(('leaked', self.lab(ev), ins[2], env.now))
@@ -374,6 +426,8 @@ class Runner:
                     except GeneratorExit:
                         raise
                     except BaseException as x:
+                        if isinstance(x, Interrupt) and isinstance(x.cause, Preempted):      # oracle-only: the cause as the victim sees it
+                            self.notes.append(('preempted', name, me[0], x.cause.by, x.cause.usage_since, x.cause.resource, env.now))
                         self.hook('resumed', name, False, x, me[0])
                         self.log(name, f'exc {type(x).__name__}', x.args[0] if x.args else None)
                         if h == 1:
@@ -400,10 +454,12 @@ class Runner:
                     break
                 except BaseException as x:
                     self.lines.append(f'X {self.fmt_exc(x)} @{self.now()}')
+                    self.raised = x          # oracle-only: the exception object that came out of step()
                     break
                 self.snap()
                 self.note_heads()
                 self.note_fcfs()
+                self.note_users(('step',))
             self.lines.append(f'F @{self.now()}')
         else:
             for seg in list(self.case.plan) + [('A',)]:
@@ -429,7 +485,12 @@ class Runner:
                             self.lines.append('R skip'); continue
                         ev = self.slots[seg[1]]
                         was_done = ev.processed
-                        v = env.run(until=ev)
+                        try:
+                            v = env.run(until=ev)
+                        except BaseException:
+                            self.hook('until-return', ev, was_done, False)
+                            raise
+                        self.hook('until-return', ev, was_done, True)
                         self.notes.append(('until-event', ev.processed, getattr(ev, '_ok', None), v is ev._value or v == ev._value, ev.defused, self.lab(ev), was_done))
                     else: v = env.run()
                     self.lines.append(f'R {self.fmt_val(v)} @{self.now()}')
